@@ -102,6 +102,8 @@ def snapshot(model) -> dict:
 
 
 def project(stage, model, ctx):
+    if stage == 'params_read':
+        ctx['dh'] = _name(model.surfaceplant.plant_type.value) == 'DISTRICT_HEATING'
     if stage == 'calculated':
         ctx['family'] = [type(getattr(model, a)).__name__ for a in ('reserv', 'wellbores', 'surfaceplant', 'economics', 'outputs')]
         snap = snapshot(model)
@@ -283,8 +285,32 @@ def _vkey(clause: str, item: dict, t: dict) -> dict:
     return key
 
 
+def lifecycle(res: Result, out: list):
+    """Beyond C09: every run of the corpus, accepted or refused, is a behaviour of Lifecycle.tla (stage order, district-heating second
+    pass, report / JSON on disk exactly when their stage was reached).  Not a listed property: deviations are reported as model fit."""
+    lt = [{'tid': k + 1, 'stages': o.get('stages', []), 'dh': bool(o.get('dh', False)), 'status': o['status'],
+           'report': bool(o.get('report_exists')), 'json': bool(o.get('json_exists'))} for k, o in enumerate(out) if o['status'] in ('ok', 'rejected')
+          and 'timeout' not in (o.get('error') or '')]
+    if not lt:
+        return
+    vd, ds, gs = tlc.validate_traces('TraceLifecycle', 'TraceLifecycle.cfg', lt)
+    res.states += ds
+    res.transitions += gs
+    cnt = {}
+    for t in lt:
+        for c in vd[t['tid']]['e']:
+            cnt[c] = cnt.get(c, 0) + 1
+        for c in vd[t['tid']]['f']:
+            cnt['failed:' + c] = cnt.get('failed:' + c, 0) + 1
+            sm = res.cov.setdefault('lifecycle_deviations', [])
+            if len(sm) < 5:
+                sm.append({'clause': c, 'stages': t['stages'], 'status': t['status'], 'dh': t['dh']})
+    res.cov['lifecycle'] = cnt
+
+
 def validate(res: Result, out: list) -> dict:
     traces, meta = [], {}
+    lifecycle(res, out)
     for o in out:
         if o['status'] == 'machinery':
             raise MachineryFailure(o['error'] + '\n' + o.get('error_tb', ''))
@@ -369,6 +395,11 @@ def run(tier: str) -> int:
     if g['violated'] != 'NeverCrashes':     # vacuity guard: withholding a series a table reads must be noticed
         raise MachineryFailure('MC_Report_missing.cfg: NeverCrashes was expected to fail when a series is withheld\n' + g['raw'][-1500:])
     res.add_mc(g, 'MC_Report_missing.cfg (self-test: violation expected and found)')
+    lc = tlc.run_tlc('Lifecycle', 'MC_Lifecycle.cfg', workers=2)
+    tlc.check_mc(lc, 'MC_Lifecycle.cfg', ['Step', 'Fail'])
+    if lc['violated']:
+        raise MachineryFailure(f'Lifecycle.tla violates {lc["violated"]}')
+    res.add_mc(lc, 'MC_Lifecycle.cfg (run life cycle, beyond the listed properties)')
     out = sim.run_many(build_jobs(tier), 'harness.c09:project', keep_report=True)
     counts = validate(res, out)
     kinds = ['ELECTRICITY/SUB_CRITICAL_ORC', 'ELECTRICITY/SUPER_CRITICAL_ORC', 'ELECTRICITY/SINGLE_FLASH', 'ELECTRICITY/DOUBLE_FLASH',
